@@ -259,9 +259,9 @@ theorem frame_helper_arrConcat (arrays : List Slice) : ReadOnly (arrConcat array
 theorem frame_helper_arrXor (arrL arrR : Slice) : ReadOnly (arrXor arrL arrR) :=
   readOnly_of_frames (frames_of_sat fun _ => sat_true (sat_arrXor arrL arrR))
 
-theorem frame_helper_hmacTag (env : Env) (a : CbcAead) (additionalData : Slice) :
-    ReadOnly (hmacTag env a additionalData) :=
-  readOnly_of_frames (frames_of_sat fun _ => sat_true (sat_hmacTag env a additionalData))
+theorem frame_helper_hmacTag (env : Env) (a : CbcAead) (additionalData nonce ciphertext : Slice) :
+    ReadOnly (hmacTag env a additionalData nonce ciphertext) :=
+  readOnly_of_frames (frames_of_sat fun _ => sat_true (sat_hmacTag env a additionalData nonce ciphertext))
 
 /-- `encryptSymmetricAEAD(aead, plaintext, nonce, associatedData)` for EVERY `cipher.AEAD` the
 package builds (standard library or AES-CBC-HMAC) -/
@@ -384,95 +384,102 @@ whose may-write set is a real range of `dst`'s capacity, with other arrays prese
 example : exCall.v = .fixed ∧ (runCall exCall exHeap).1.isOk = true ∧ mayWrite exCall = [(0, 2, 34)] ∧
     1 < exHeap.size ∧ 1 ≠ (exCall.arg "dst").arr := by decide +kernel
 
-/-! ## T1: every exported `[]byte`-taking function found in the source has a frame theorem -/
+/-! ## T1: the obligation of every function found in the source is COMPUTED from its generated
+signature, and discharged -/
 
-/-- one covered function: its identity as `factgen_c17` reports it (package, receiver, name,
-`[]byte` parameter names) and the frame statement proved for it -/
-structure Covered where
-  pkg : String
-  recv : String
-  name : String
-  params : List String
-  Stmt : Prop
-  proof : Stmt
+/-- the only cells a function with the `[]byte` parameters `ps` may write: the spare capacity of an
+explicit `dst` — nothing at all if it has no `dst` -/
+def dstSpare (ps : List String) (a : String → Slice) : List (Nat × Nat × Nat) :=
+  if ps.contains "dst" then
+    [((a "dst").arr, (a "dst").off + (a "dst").len, (a "dst").off + (a "dst").cap)]
+  else []
 
-def covered : List Covered := [
-  ⟨"aescbcaead", "", "NewAESCBC128SHA256", ["key"], _, frame_NewAESCBCAEAD paramsAESCBC128SHA256⟩,
-  ⟨"aescbcaead", "", "NewAESCBC192SHA384", ["key"], _, frame_NewAESCBCAEAD paramsAESCBC192SHA384⟩,
-  ⟨"aescbcaead", "", "NewAESCBC256SHA384", ["key"], _, frame_NewAESCBCAEAD paramsAESCBC256SHA384⟩,
-  ⟨"aescbcaead", "", "NewAESCBC256SHA512", ["key"], _, frame_NewAESCBCAEAD paramsAESCBC256SHA512⟩,
-  ⟨"aescbcaead", "", "NewAESCBCAEAD", ["p.key"], _, frame_NewAESCBCAEAD⟩,
-  ⟨"aescbcaead", "aesCBCAEAD", "Open", ["dst", "nonce", "ciphertext", "additionalData"], _, frame_Open⟩,
-  ⟨"aescbcaead", "aesCBCAEAD", "Seal", ["dst", "nonce", "plaintext", "additionalData"], _, frame_Seal⟩,
-  ⟨"aeskw", "", "Unwrap", ["cipherText"], _, frame_Unwrap⟩,
-  ⟨"aeskw", "", "Wrap", ["cek"], _, frame_Wrap⟩,
-  ⟨"crypto", "", "Decrypt", ["ciphertext", "nonce", "tag", "associatedData"], _, frame_Decrypt⟩,
-  ⟨"crypto", "", "DecryptPrivateKey", ["ciphertext", "associatedData"], _, frame_DecryptPrivateKey⟩,
-  ⟨"crypto", "", "DecryptSymmetric", ["ciphertext", "nonce", "tag", "associatedData"], _, frame_DecryptSymmetric⟩,
-  ⟨"crypto", "", "Encrypt", ["plaintext", "nonce", "associatedData"], _, frame_Encrypt⟩,
-  ⟨"crypto", "", "EncryptPublicKey", ["plaintext", "associatedData"], _, frame_EncryptPublicKey⟩,
-  ⟨"crypto", "", "EncryptSymmetric", ["plaintext", "nonce", "associatedData"], _, frame_EncryptSymmetric⟩,
-  ⟨"crypto", "", "ParseKey", ["raw"], _, frame_ParseKey⟩,
-  ⟨"crypto", "", "SignPrivateKey", ["digest"], _, frame_SignPrivateKey⟩,
-  ⟨"crypto", "", "VerifyPublicKey", ["digest", "signature"], _, frame_VerifyPublicKey⟩,
-  ⟨"padding", "", "PadPKCS7", ["buf"], _, frame_PadPKCS7⟩,
-  ⟨"padding", "", "UnpadPKCS7", ["buf"], _, frame_UnpadPKCS7⟩]
+/-- THE frame obligation of a function as `factgen_c17` reports it (package, receiver, name, the
+names of its `[]byte` parameters in order): the model registry has an entry with exactly this
+signature whose run — for every oracle, every non-slice parameter and EVERY assignment of slices to
+the parameter names (any offsets, lengths, capacities, aliasing) — leaves all pre-existing memory
+unchanged except the spare capacity of `dst`, if `dst` is one of the parameters. A new parameter,
+a renamed one or a new function changes this proposition itself. -/
+def frameStmt (f : Kit.Generated.C17.Fn) : Prop :=
+  ∃ e, e ∈ models ∧ e.pkg = f.pkg ∧ e.recv = f.recv ∧ e.name = f.name ∧ e.params = f.params ∧
+    ∀ (env : Env) (ns : NonSlice) (a : String → Slice), Frames (dstSpare f.params a) (e.run env ns a)
 
-def isCovered (f : Kit.Generated.C17.Fn) : Bool :=
-  covered.any fun e => e.pkg == f.pkg && e.recv == f.recv && e.name == f.name && e.params == f.params
+theorem dstRange_within_spare (ps : List String) (a : String → Slice) (size : Nat)
+    (hd : ps.contains "dst" = true) :
+    ∀ x i, InRanges (dstRange (a "dst") size) x i → InRanges (dstSpare ps a) x i := by
+  intro x i ⟨r, hr, h1, h2, h3⟩
+  have hw := mayWrite_within_dst_capacity (a "dst") size r hr
+  refine ⟨((a "dst").arr, (a "dst").off + (a "dst").len, (a "dst").off + (a "dst").cap), ?_, ?_, ?_, ?_⟩
+  · unfold dstSpare
+    rw [if_pos hd]
+    exact List.mem_singleton.mpr rfl
+  · exact hw.1 ▸ h1
+  · exact Nat.le_trans hw.2.1 h2
+  · exact Nat.lt_of_lt_of_le h3 hw.2.2
 
-/-- a new exported `[]byte`-taking function (or a new `[]byte` parameter) in the source makes
-this fail until a frame theorem for it is added to `covered` -/
-theorem generated_functions_covered : Kit.Generated.C17.fns.all isCovered = true := by decide
+/-- every registry entry meets the obligation computed from ITS OWN declared signature -/
+theorem models_framed : ∀ e, e ∈ models →
+    ∀ (env : Env) (ns : NonSlice) (a : String → Slice), Frames (dstSpare e.params a) (e.run env ns a) := by
+  unfold models
+  simp only [List.mem_cons, List.not_mem_nil, or_false, forall_eq_or_imp, forall_eq]
+  refine ⟨?_, ?_, ?_, ?_, ?_, ?_, ?_, ?_, ?_, ?_, ?_, ?_, ?_, ?_, ?_, ?_, ?_, ?_, ?_, ?_, ?_, ?_, ?_, ?_, ?_,
+    ?_, ?_, ?_, ?_, ?_, ?_, ?_, ?_, ?_, ?_, ?_, ?_, ?_, ?_, ?_, ?_, ?_, ?_, ?_, ?_, ?_, ?_, ?_, ?_, ?_⟩
+  case refine_6 => -- Open
+    intro env ns a
+    exact Frames.mono (Frames.discard
+      (frame_Open env (recvAead ns a) (a "dst") (a "nonce") (a "ciphertext") (a "additionalData")))
+      (dstRange_within_spare _ a _ (by decide))
+  case refine_7 => -- Seal
+    intro env ns a
+    exact Frames.mono (Frames.discard
+      (frame_Seal env (recvAead ns a) (a "dst") (a "nonce") (a "plaintext") (a "additionalData")))
+      (dstRange_within_spare _ a _ (by decide))
+  all_goals
+    intro env ns a
+    refine frames_of_sat fun _ => ?_
+    first
+      | (with_reducible refine sat_mono (by (sat_rule <;> sat_side)) ?_; intro _ _; trivial)
 
-/-- and nothing in `covered` is stale -/
-theorem covered_functions_exist :
-    (covered.all fun e => Kit.Generated.C17.fns.any fun f =>
-      e.pkg == f.pkg && e.recv == f.recv && e.name == f.name && e.params == f.params) = true := by decide
+def matchesSig (f : Kit.Generated.C17.Fn) (e : ModelEntry) : Bool :=
+  e.pkg == f.pkg && e.recv == f.recv && e.name == f.name && e.params == f.params
 
-/-- the helpers: a new non-exported `[]byte`-taking function reachable from an exported one (for
-instance a `joinCiphertextAndTag(ciphertext, tag)`) is a new obligation: it needs a model
-function, a frame theorem and an entry here -/
-def coveredHelpers : List Covered := [
-  ⟨"aescbcaead", "aesCBCAEAD", "hmacTag", ["additionalData", "nonce", "ciphertext"], _, frame_helper_hmacTag⟩,
-  ⟨"aeskw", "", "arrConcat", ["arrays..."], _, frame_helper_arrConcat⟩,
-  ⟨"aeskw", "", "arrXor", ["arrL", "arrR"], _, frame_helper_arrXor⟩,
-  ⟨"crypto", "", "decryptPrivateKeyRSAOAEP", ["ciphertext", "label"], _, frame_helper_decryptPrivateKeyRSAOAEP⟩,
-  ⟨"crypto", "", "decryptPrivateKeyRSAPKCS1v15", ["ciphertext"], _, frame_helper_decryptPrivateKeyRSAPKCS1v15⟩,
-  ⟨"crypto", "", "decryptSymmetricAEAD", ["ciphertext", "nonce", "tag", "associatedData"], _, frame_helper_decryptSymmetricAEAD⟩,
-  ⟨"crypto", "", "decryptSymmetricAESCBC", ["ciphertext", "key", "iv"], _, frame_decrypt_AESCBC⟩,
-  ⟨"crypto", "", "decryptSymmetricAESCBCHMAC", ["ciphertext", "key", "nonce", "tag", "associatedData"], _, frame_decrypt_AESCBCHMAC⟩,
-  ⟨"crypto", "", "decryptSymmetricAESGCM", ["ciphertext", "key", "nonce", "tag", "associatedData"], _, frame_decrypt_AESGCM⟩,
-  ⟨"crypto", "", "decryptSymmetricAESKW", ["ciphertext", "key"], _, frame_decrypt_AESKW⟩,
-  ⟨"crypto", "", "decryptSymmetricChaCha20Poly1305", ["ciphertext", "key", "nonce", "tag", "associatedData"], _, frame_decrypt_ChaCha20Poly1305⟩,
-  ⟨"crypto", "", "encryptPublicKeyRSAOAEP", ["plaintext", "label"], _, frame_helper_encryptPublicKeyRSAOAEP⟩,
-  ⟨"crypto", "", "encryptPublicKeyRSAPKCS1v15", ["plaintext"], _, frame_helper_encryptPublicKeyRSAPKCS1v15⟩,
-  ⟨"crypto", "", "encryptSymmetricAEAD", ["plaintext", "nonce", "associatedData"], _, frame_helper_encryptSymmetricAEAD⟩,
-  ⟨"crypto", "", "encryptSymmetricAESCBC", ["plaintext", "key", "iv"], _, frame_encrypt_AESCBC⟩,
-  ⟨"crypto", "", "encryptSymmetricAESCBCHMAC", ["plaintext", "key", "nonce", "associatedData"], _, frame_encrypt_AESCBCHMAC⟩,
-  ⟨"crypto", "", "encryptSymmetricAESGCM", ["plaintext", "key", "nonce", "associatedData"], _, frame_encrypt_AESGCM⟩,
-  ⟨"crypto", "", "encryptSymmetricAESKW", ["plaintext", "key"], _, frame_encrypt_AESKW⟩,
-  ⟨"crypto", "", "encryptSymmetricChaCha20Poly1305", ["plaintext", "key", "nonce", "associatedData"], _, frame_encrypt_ChaCha20Poly1305⟩,
-  ⟨"crypto", "", "getAESCBCHMACCipher", ["key"], _, frame_helper_getAESCBCHMACCipher⟩,
-  ⟨"crypto", "", "getChaCha20Poly1305Cipher", ["key", "nonce"], _, frame_helper_getChaCha20Poly1305Cipher⟩,
-  ⟨"crypto", "", "parseSymmetricKey", ["raw"], _, frame_helper_parseSymmetricKey⟩,
-  ⟨"crypto", "", "signPrivateKeyECDSA", ["digest"], _, frame_helper_signPrivateKeyECDSA⟩,
-  ⟨"crypto", "", "signPrivateKeyEdDSA", ["message"], _, frame_helper_signPrivateKeyEdDSA⟩,
-  ⟨"crypto", "", "signPrivateKeyRSAPKCS1v15", ["digest"], _, frame_helper_signPrivateKeyRSAPKCS1v15⟩,
-  ⟨"crypto", "", "signPrivateKeyRSAPSS", ["digest"], _, frame_helper_signPrivateKeyRSAPSS⟩,
-  ⟨"crypto", "", "verifyPublicKeyECDSA", ["digest", "signature"], _, frame_helper_verifyPublicKeyECDSA⟩,
-  ⟨"crypto", "", "verifyPublicKeyEdDSA", ["mesage", "signature"], _, frame_helper_verifyPublicKeyEdDSA⟩,
-  ⟨"crypto", "", "verifyPublicKeyRSAPKCS1v15", ["digest", "signature"], _, frame_helper_verifyPublicKeyRSAPKCS1v15⟩,
-  ⟨"crypto", "", "verifyPublicKeyRSAPSS", ["digest", "signature"], _, frame_helper_verifyPublicKeyRSAPSS⟩]
+/-- every exported `[]byte`-taking function AND every non-exported helper reachable from one has a
+registry entry with exactly its signature (a new function / parameter in the source breaks this) -/
+theorem generated_have_models :
+    (Kit.Generated.C17.fns ++ Kit.Generated.C17.helpers).all (fun f => models.any (matchesSig f)) = true := by
+  decide
 
-def isCoveredHelper (f : Kit.Generated.C17.Fn) : Bool :=
-  coveredHelpers.any fun e => e.pkg == f.pkg && e.recv == f.recv && e.name == f.name && e.params == f.params
+/-- and nothing in the registry is stale -/
+theorem models_are_generated :
+    (models.all fun e => (Kit.Generated.C17.fns ++ Kit.Generated.C17.helpers).any fun f => matchesSig f e) = true := by
+  decide
 
-theorem generated_helpers_covered : Kit.Generated.C17.helpers.all isCoveredHelper = true := by decide
+/-- T1 ∘ proof: the obligation computed from each generated signature holds -/
+theorem generated_frame_obligations :
+    ∀ f, f ∈ Kit.Generated.C17.fns ++ Kit.Generated.C17.helpers → frameStmt f := by
+  intro f hf
+  have h := List.all_eq_true.mp generated_have_models f hf
+  obtain ⟨e, he, hm⟩ := List.any_eq_true.mp h
+  simp only [matchesSig, Bool.and_eq_true, beq_iff_eq] at hm
+  obtain ⟨⟨⟨h1, h2⟩, h3⟩, h4⟩ := hm
+  exact ⟨e, he, h1, h2, h3, h4, fun env ns a => h4 ▸ models_framed e he env ns a⟩
 
-theorem covered_helpers_exist :
-    (coveredHelpers.all fun e => Kit.Generated.C17.helpers.any fun f =>
-      e.pkg == f.pkg && e.recv == f.recv && e.name == f.name && e.params == f.params) = true := by decide
+/-- T1: every site of every Go body where caller memory is passed on, written, re-sliced with an
+upper bound or retained is read-only by the stated contract, or is a write the model declares —
+and those flow from an explicit `dst` only. This is what justifies model bodies that merely read
+(`touch`) their slices: `slices.Insert(signature, …)`, `h.Sum(ciphertext)`, `x[i] = …`,
+`copy(param, …)`, `append(param, …)`, `Open(param[:0], …)` would all appear here unaccounted. -/
+theorem write_sites_accounted :
+    Kit.Generated.C17.sites.all (fun p => sitesOK p.1 p.2) = true := by decide
+
+/-- every function with sites is one of the generated functions (the analysis covers them all) -/
+theorem sites_cover_generated :
+    ((Kit.Generated.C17.fns ++ Kit.Generated.C17.helpers).all fun f =>
+      Kit.Generated.C17.sites.any fun p => p.1 == (f.pkg, f.recv, f.name)) = true := by decide
+
+/-- T1: the four packages keep no state between calls except the constant `defaultIV` (a buffer
+pool or cache would be listed here): the model's "`make` returns a fresh array" stands -/
+theorem no_package_state : Kit.Generated.C17.globals = ["aeskw.defaultIV"] := by decide
 
 /-- T1: the algorithm lists the model dispatches on are those of the `switch algorithm`
 statements in the source, clause by clause -/
